@@ -181,6 +181,7 @@ def oracle(case, res):
     uni, names, T = res['uni'], res['names'], res['T']
     outs = [(x, kind) for x, kind, primed, _ in uni if primed]
     out_vals = list(itertools.product(*[values_of(k) for _, k in outs]))
+    res['n_solvable'] = 0
     for state, out in res['results']:
         sols = []
         for ov in out_vals:
@@ -190,6 +191,7 @@ def oracle(case, res):
                 sols.append(ov)
         if not sols:
             continue
+        res['n_solvable'] += 1
         if isinstance(out, tuple):
             return ('generated step raised ' + out[1], state, None)
         if sorted(out) != sorted(x for x, _ in outs):
